@@ -27,6 +27,7 @@ import (
 	"path/filepath"
 	"sort"
 	"strings"
+	"time"
 
 	"cuelang.org/go/cue"
 	"cuelang.org/go/cue/cuecontext"
@@ -205,8 +206,24 @@ func c05PLoadOne(root string, in c05PInput, allowed []string) (ast.Schemas, erro
 	return input.LoadSchemas(context.Background())
 }
 
-// c05PLoad loads every input of the case (dropAllowed: without the `allowed_objects` restriction)
-func c05PLoad(c *c05Case, dropAllowed bool) (res c05Run) {
+// c05PLoad loads every input of the case (dropAllowed: without the `allowed_objects` restriction);
+// a load that does not come back within the time limit is reported as `timeout` (termination is
+// property C04's business; the stream must go on)
+func c05PLoad(c *c05Case, dropAllowed bool) c05Run {
+	if os.Getenv("C05_TRACE") != "" {
+		fmt.Fprintln(os.Stderr, "c05popt:", c05PText(c))
+	}
+	done := make(chan c05Run, 1)
+	go func() { done <- c05PLoad0(c, dropAllowed) }()
+	select {
+	case r := <-done:
+		return r
+	case <-time.After(20 * time.Second):
+		return c05Run{status: "timeout", detail: "no answer from the loader within 20s"}
+	}
+}
+
+func c05PLoad0(c *c05Case, dropAllowed bool) (res c05Run) {
 	defer func() {
 		if r := recover(); r != nil {
 			res = c05Run{status: "panic", detail: fmt.Sprint(r)}
